@@ -8,7 +8,7 @@ from pyopenapi_gen import IRSpec
 from ..context.render_context import RenderContext
 from ..core.utils import NameSanitizer
 from ..core.writers.code_writer import CodeWriter
-from ..core.writers.documentation_writer import DocumentationBlock, DocumentationWriter
+from ..core.writers.documentation_writer import DocumentationBlock, DocumentationWriter, escape_docstring_text
 
 if TYPE_CHECKING:
     # To prevent circular imports if any type from core itself is needed for hints
@@ -181,7 +181,7 @@ class ClientVisitor:
 
             writer.write_line(f"def {module_name}(self) -> {class_name}:")
             writer.indent()
-            writer.write_line(f'"""Client for \'{tag}\' endpoints."""')
+            writer.write_line(f'"""Client for \'{escape_docstring_text(tag)}\' endpoints."""')
             writer.write_line(f"if self._{module_name} is None:")
             writer.indent()
             writer.write_line(f"self._{module_name} = {class_name}(self.transport, self._base_url)")
